@@ -523,8 +523,45 @@ def w_stubs(arg):
     return rec
 
 
+def w_naive(arg):
+    """a key object made by PGPKey.new() with a time-zone-naive creation time (accepted with a warning, exported as UTC) is loaded next to a parsed
+    key that shares its name: load must not tear the index -- both fingerprints reported, the shared name and each e-mail select a carrier"""
+    import datetime
+    import pgpy
+    from pgpy.constants import PubKeyAlgorithm, EllipticCurveOID, KeyFlags, HashAlgorithm
+    seed = arg
+    rec = harness.Rec()
+    for order in (0, 1):
+        case = {'kind': 'naive', 'seed': seed, 'order': order}
+        rec.case(('naive', order), True, ('load/object-with-naive-creation-time', 'load-order/%d' % order), {'form': 'object made by PGPKey.new(created=<naive datetime>)', 'shares_name_with': 'a parsed key', 'loaded_first': bool(order)})
+        try:
+            fresh = pgpy.PGPKey.new(PubKeyAlgorithm.EdDSA, EllipticCurveOID.Ed25519, created=datetime.datetime(2024, 1, 1 + seed % 20, 12, 0))
+            fresh.add_uid(pgpy.PGPUID.new('Alice', comment='work', email='fresh@example.org'), usage={KeyFlags.Sign, KeyFlags.Certify}, hashes=[HashAlgorithm.SHA256])
+            parsed = universe().blobs[(0, 'pub')]
+            kr = pgpy.PGPKeyring()
+            for item in ([fresh, parsed] if order else [parsed, fresh]):
+                kr.load(item)
+            fps = set(kr.fingerprints())
+            want = {str(fresh.fingerprint), universe().info[0]['fp']}
+            probs = []
+            if not want <= {f.replace(' ', '') for f in fps}:
+                probs.append('fingerprints() reports %r' % sorted(fps))
+            for ident, carriers in (('Alice', want), ('fresh@example.org', {str(fresh.fingerprint)}), ('alice@example.org', {universe().info[0]['fp']})):
+                try:
+                    with kr.key(ident) as k:
+                        if str(k.fingerprint) not in carriers:
+                            probs.append('%r selects %s' % (ident, k.fingerprint))
+                except KeyError:
+                    probs.append('%r selects nothing' % ident)
+            for pr in probs:
+                rec.finding('invariant', 'naive-creation-time/index-torn', case, pr)
+        except Exception as e:   # noqa
+            rec.finding('step', 'naive-creation-time/load-exception', case, repr(e))
+    return rec
+
+
 def run(tier, seed):
-    tasks = [('w_stubs', seed)]
+    tasks = [('w_stubs', seed), ('w_naive', seed)]
     L = 4 if tier == 'quick' else 5
     for p in range(6):
         tasks.append(('w_exhaustive', (p, 6, L)))
@@ -539,6 +576,8 @@ def dispatch(task):
 
 
 def replay(case):
+    if case.get('kind') == 'naive':
+        return [(f['clause'], f['cause'], f['detail']) for f in w_naive(case['seed']).findings]
     if case.get('kind') == 'stubs':
         return [(f['clause'], f['cause'], f['detail']) for f in w_stubs(case['seed']).findings]
     return run_ops(case['ops'])
